@@ -115,6 +115,48 @@ CLAIMED = {
         note=TB + " Classification is conservative (syntactic); step_conforms is a hypothesis; no NaN costs; population_size >= 1.",
         technique="Coq proof (keeps_best for each elitist population write, induction over writes and cycles) + search over the elitist set",
         design="§7 C17"),
+    "C07": dict(
+        text=("Proof (Coq): the regenerated optimize() schema seeds numpy's stream from the task before anything draws and Task.seed is an integer field; "
+              "for every exported optimizer (skeleton facts regenerated by T-algo: no entropy source other than the seeded stream, transitively through "
+              "helpers.py; no field read before it is assigned in the run) the dependency theorem gives: the result of a serial call is a function of (task incl. "
+              "seed, configuration, arguments) only - not of the stream's earlier state nor of any other entropy - for every numeric kernel. Tightness lemma: an "
+              "entropy read admits two differing runs. Search: seeded reruns across processes after unrelated draws, incl. fully tied populations."),
+        note=TB + " np.random.seed(int) determines the subsequent stream (oracle law); serial mode; the abstract call machine has five locations (inputs, numpy stream, other entropy, instance state, result).",
+        technique="Coq non-interference (dependency) theorem over regenerated skeleton facts + seeded-rerun search",
+        design="§7 C07 / dependency theorem"),
+    "C08": dict(
+        text=("Proof (Coq): the regenerated schema resets the per-run bookkeeping; for every exported optimizer no instance field is read before it is assigned in "
+              "the same run (regenerated def-use facts), hence by the dependency theorem the result does not depend on what earlier runs left in the instance. "
+              "Tightness: a stale read admits a difference. Tie/search: scripted second runs vs the model (C04 machinery), every real optimizer reused 1-2 times "
+              "vs a fresh instance, and reconfigured instances (C18)."),
+        note=TB + " Serial mode, equal arguments; constructor-only fields are constants (inputs).",
+        technique="Coq non-interference theorem over regenerated def-use facts + reuse search",
+        design="§7 C08"),
+    "C09": dict(
+        text=("Proof (Coq): for every exported optimizer no store, augmented assignment or mutating call reaches the caller's configuration or task - directly or "
+              "through a local alias of one of their sub-objects (regenerated facts) - so in the call machine the inputs location is in no operation's write set and "
+              "keeps its value after any number of cycles (and after any prefix: a raise leaves it too). Search: model_dump of config and task before/after every run, "
+              "incl. configurations with list parameters written in reverse order."),
+        note=TB + " Fresh arrays built from config/task fields are not aliases.",
+        technique="Coq frame theorem (untouched location) over regenerated write facts + before/after comparison search",
+        design="§7 C09"),
+    "C12": dict(
+        text=("Proof (Coq): for every optimizer pinned as fitness- and direction-blind (82; recomputed on every run, must contain the pinned set) the positions and "
+              "internal costs of all agents after every cycle are the same function of (seed, configuration, internal objective) whatever the direction and the "
+              "fitness values are (taint-style non-interference over the dual call machine, budget-only stopping); the regenerated _fcn makes the internal objective "
+              "of maximising f equal to that of minimising -f for every objective value, and the regenerated result constructors restore the sign by xneg. "
+              "Search: run(max, f) vs run(min, -f), equal seeds, incl. an objective that is NaN on part of the box."),
+        note=TB + " fitness_error = None and no early stopping; Ant Lion (reads fitness) and Imperialist Competitive (reads the direction) are outside the domain.",
+        technique="Coq taint non-interference over regenerated read facts + regenerated _fcn bridge; paired-run search",
+        design="§7 C12"),
+    "C18": dict(
+        text=("Proof (Coq): for every exported optimizer the constructor dereferences nothing of the configuration and set_config_parameters is exactly "
+              "`self._config = Config(**parameters)` (regenerated facts); optimize() without a configuration raises ValueError before any cycle (regenerated schema); "
+              "a run after set_config_parameters(d) equals a run of an instance constructed with that configuration (same inputs, result depends on inputs only: C08). "
+              "Search: all 84 classes through the API incl. rejected dictionaries, seeded run equivalence, reconfigured used instances."),
+        note=TB + " pydantic validation of the config class is the reference for accepted / rejected dictionaries.",
+        technique="Coq (facts by computation over regenerated skeletons + schema theorem + non-interference) + API search",
+        design="§7 C18"),
 }
 
 PENDING_REASON = "check not built yet in this round (work in progress, see DESIGN.md §11 build order); not claimed until its check exists"
